@@ -16,8 +16,12 @@ _NOTE = ("Trusted: CrossHair 0.0.110's models of builtins (known-unsound float<-
          "z3 5.1, CPython 3.12; the reference oracles in /verif/props (written from the docs); stub children stand for arbitrary "
          "contract-abiding child loaders (assume-guarantee, DESIGN.md 4.5). Values crossing C boundaries are realised (selector-enumerated).")
 CLAIMED = {
+    "C01": ("CrossHair symbolic execution of real dumper->loader pairs: leaf pairs, combinators with an inverse stub pair, generated model pairs per name_mapping recipe (z3 path exhaustion); C-level value pools by labelled enumeration",
+            _LV + "C01: load(dump(x)) == x with identical types in all 6 modes, json leg where keys are strings.", _NOTE, "DESIGN.md 5/C01"),
     "C02": ("CrossHair symbolic execution of the real scalar/container/union loaders vs. a reference written from the docs; z3 path exhaustion",
             _LV + "C02: scalar loaders x symbolic atoms x root kinds; container/tuple/dict/union combinators with stub children vs. the documented rules.", _NOTE, "DESIGN.md 5/C02"),
+    "C03": ("CrossHair symbolic execution of the generated model_loader_*/model_dumper_* functions per (model, name_mapping recipe) member against a reference loader/dumper over the layout stated by construction from the documented rules",
+            _LV + "C03: every field from/to exactly its documented path; unknown keys ignored / rejected with exactly their set / delivered; omit_default; list gaps.", _NOTE, "DESIGN.md 5/C03"),
     "C04": ("CrossHair symbolic execution of the real loaders (outcome must be LoadError-only) + native replay; z3 path exhaustion",
             _LV + "C04: no non-LoadError outcome for any atom kind / wrong container / stub-child outcome in all 6 modes.", _NOTE, "DESIGN.md 5/C04"),
     "C05": ("CrossHair symbolic execution of real combinators with stub children carrying symbolic relative trails; exact trail/completeness post-conditions",
